@@ -147,6 +147,11 @@ impl MemTable {
 		self.skiplist.size() as usize
 	}
 
+	/// True once an insert did not fit into the arena: every further `add` fails.
+	pub(crate) fn is_arena_exhausted(&self) -> bool {
+		self.skiplist.arena_exhausted()
+	}
+
 	/// Adds a batch of operations to the memtable.
 	/// This includes appending the batch to the Write-Ahead Log (WAL),
 	/// applying the batch to the in-memory table, and updating the memtable
